@@ -34,17 +34,21 @@ BIG = 100000.0
 
 
 class FaultTableMonitor(Monitor):
-    def __init__(self, w):
-        self.table = {}
+    def __init__(self, w, configured):
+        # the model is what the user CONFIGURED (not what the table object answers afterwards)
+        self.table = dict(configured)
         for ent in (w.a, w.b):
             for c in CONDS:
-                self.table[(ent.name, int(c))] = KIND[ent.fh.get_fault_handler(c)]
+                got = KIND.get(ent.fh.get_fault_handler(c))
+                if got != self.table[(ent.name, int(c))]:
+                    w.violate("C14.table_not_kept", f"{ent.name} cond={int(c)} configured={self.table[(ent.name, int(c))]} reads={got}", "")
         self.cancel_phase = {("a", "src"): False, ("b", "dst"): False}
         self.ignored: set = set()
         self.peer_conds: set = set()
         self.pending_cancel: dict = {}
         self.pending_fin: dict = {}
         self.abandoned: set = set()
+        self.waiting: dict = {}
         self.callbacks = 0
 
     def on_call(self, w, rec) -> None:
@@ -80,7 +84,12 @@ class FaultTableMonitor(Monitor):
                 w.violate("C14.tid_none", f"{rec.ent}.{rec.hk} cond={cond}", "")
             elif tid is not None and ftid != tid:
                 w.violate("C14.tid", f"{rec.ent}.{rec.hk} cond={cond}", f"{ftid} vs {tid}")
-            ok_prog = {rec.pre.progress, rec.post.progress}
+            # "current progress" = the progress when the fault is declared: what it was at call entry, or what the
+            # inbound PDU of this call made it; the value after the call only if the call advanced it (a handler that
+            # was reset by the fault reports 0 afterwards, which is not the progress of the faulted transaction)
+            ok_prog = {rec.pre.progress}
+            if rec.post.progress >= rec.pre.progress and rec.post.state != "IDLE":
+                ok_prog.add(rec.post.progress)
             if rec.inb_kind == "EOF":
                 ok_prog.add(rec.inb_info[2])  # an EOF updates the progress before the fault is declared
             if rec.inb_kind == "FD":
@@ -127,7 +136,12 @@ class FaultTableMonitor(Monitor):
             w.fs_fault is not None and rec.exc.cls in ("FileNotFoundError", "PermissionError")
         ):
             w.violate("C14.fault_call_raises", f"{rec.ent}.{rec.hk} {rec.exc!r} faults={[(f[0], f[2]) for f in rec.faults]}", rec.exc.msg)
-        # --- receiver: a cancel must reach user and peer
+        # --- receiver: a cancel must reach user and peer, and soon (nothing from the peer is needed for it)
+        if key in self.pending_cancel and not fin_inds and not rec.faults:
+            self.waiting[key] = self.waiting.get(key, 0) + 1
+            if self.waiting[key] == 6 and rec.post.state != "IDLE":
+                w.violate("C14.cancel_not_completed", f"{rec.ent}.{rec.hk} cond={self.pending_cancel[key]} stuck in {rec.post.step}",
+                          "6 calls after the notice of cancellation: no Transaction-Finished indication")
         if key in self.pending_cancel and fin_inds:
             cond = self.pending_cancel.pop(key)
             if fin_inds[0][2][0] != cond:
@@ -176,16 +190,25 @@ def run_one(t):
     ctx = Ctx(w, sc)
     try:
         # handler table: drawn for every condition of both entities
+        configured = {}
         for ent in (w.a, w.b):
             for cnd in CONDS:
-                ent.fh.set_handler(cnd, CODES[t.weighted([3, 2, 2], f"code {ent.name} {int(cnd)}")])
+                code = CODES[t.weighted([3, 2, 2], f"code {ent.name} {int(cnd)}")]
+                # the documented default (cancel; ignore for checksum failures) is sometimes left untouched, so that
+                # "one entity's configuration does not reach the other's defaults" is observable
+                default = FaultHandlerCode.IGNORE_ERROR if cnd == ConditionCode.FILE_CHECKSUM_FAILURE else FaultHandlerCode.NOTICE_OF_CANCELLATION
+                if t.choose(3, "leave default") == 2:
+                    code = default
+                else:
+                    ent.fh.set_handler(cnd, code)
+                configured[(ent.name, int(cnd))] = KIND[code]
         for bad in (ConditionCode.NO_ERROR, ConditionCode.SUSPEND_REQUEST_RECEIVED):
             try:
                 w.a.fh.set_handler(bad, FaultHandlerCode.IGNORE_ERROR)
                 w.violate("C14.set_handler_outside_table", f"cond={int(bad)} accepted", "")
             except ValueError:
                 pass
-        mon = FaultTableMonitor(w)
+        mon = FaultTableMonitor(w, configured)
         w.monitors.append(mon)
         unit = int(max(cfg.ack_s, cfg.nak_s, min(cfg.check_s_recv, 10), min(cfg.check_s_send, 10)) * 1000)
         if sc in ("ack_silence_src", "ack_silence_dst", "nak_limit"):
@@ -228,6 +251,16 @@ def run_one(t):
             w.link.budget = 1 + t.choose(2, "flips")
         elif sc == "fs_reject":
             ops = [("write_data",), ("create_file", "truncate_file"), ("write_data", "create_file", "truncate_file")][t.choose(3, "fs ops")]
+            if t.choose(3, "lose first metadata") == 2:
+                # the rejection then hits the RE-REQUESTED Metadata PDU (acknowledged mode), possibly after the EOF
+                lost = {"n": 0}
+
+                def md_hook(src_ent, dst, em, key):
+                    if key == "a>b MD" and lost["n"] == 0:
+                        lost["n"] = 1
+                        return ("drop",)
+                    return None
+                w.link.hook = md_hook
             first = {"n": t.choose(4, "reject from nth")}
 
             def decide(op, path, *extra):
